@@ -1964,7 +1964,6 @@ def stream_text(ctx, rules, malformed):
     from txdbus import router
     saved = swap_log(router, LogSpy())
     try:
-        c, t = make_connection()
         lines, obs = [], []
         for kw in rules:
             ckw = call_kw(kw)
@@ -1972,8 +1971,14 @@ def stream_text(ctx, rules, malformed):
                 ckw['arg'] = ckw.pop('args')
             if 'arg_paths' in ckw:
                 ckw['arg_path'] = ckw.pop('arg_paths')
+            # a fresh connection per rule: the text written for a rule must not depend on the rules asked for before
+            # (an implementation may legitimately not repeat an AddMatch for a text it already sent)
+            c, t = make_connection()
             c.addMatch(lambda m: None, **ckw).addErrback(lambda f: None)
-            sent = drain_calls(t)
+            sent = [x for x in drain_calls(t) if x[0] == 'AddMatch' and x[1]]
+            if not sent:
+                ctx.stat('rule-text:first-addMatch-on-a-connection-wrote-no-AddMatch')
+                continue
             text = sent[0][1][0]
             status, bkw, b, peer = bus_add(text)
             lines.append('render ' + enc_rule(kw))
@@ -2130,16 +2135,22 @@ def gen_bus_history(rng, n_ops):
 
 def render_with_client(kw, _cache={}):
     """The rule text the real client writes for kw."""
-    if 'conn' not in _cache:
-        _cache['conn'] = make_connection()
-    c, t = _cache['conn']
-    ckw = call_kw(kw)
-    if 'args' in ckw:
-        ckw['arg'] = ckw.pop('args')
-    if 'arg_paths' in ckw:
-        ckw['arg_path'] = ckw.pop('arg_paths')
-    c.addMatch(lambda m: None, **ckw).addErrback(lambda f: None)
-    return drain_calls(t)[0][1][0]
+    from txdbus import client
+    key = (client.__file__, json.dumps(clean_kw(kw), sort_keys=True))
+    if key not in _cache:
+        # a fresh connection per rule: an implementation may legitimately not repeat an AddMatch for a text it sent before
+        c, t = make_connection()
+        ckw = call_kw(kw)
+        if 'args' in ckw:
+            ckw['arg'] = ckw.pop('args')
+        if 'arg_paths' in ckw:
+            ckw['arg_path'] = ckw.pop('arg_paths')
+        c.addMatch(lambda m: None, **ckw).addErrback(lambda f: None)
+        sent = [x for x in drain_calls(t) if x[0] == 'AddMatch' and x[1]]
+        if not sent:
+            raise HarnessReach('the first addMatch on a fresh connection wrote no AddMatch')
+        _cache[key] = sent[0][1][0]
+    return _cache[key]
 
 
 def run_bus_history(ctx, ops):
